@@ -2,6 +2,8 @@
 """Shared 2-D / 1-D state spaces: schemas x data sets x small insertion configs, and the
 machinery to line the library's displayed matrix up with oracle cells."""
 
+import copy
+
 import numpy as np
 
 from cr.cube.cube import Cube
@@ -37,7 +39,9 @@ def transforms_for(config):
             t[dim] = d
     for k, v in (config.get("top") or {}).items():
         t[k] = v
-    return t
+    # the library rewrites transform dicts in place (array-id shimming): every cube gets
+    # its own private copy so that no state can leak into another
+    return copy.deepcopy(t)
 
 
 def resolve_insertions(axis, insertions):
